@@ -82,6 +82,7 @@ bool ops_module(Ctx &c, Toks const &t, std::string const &rest)
                          ((t[2] == "inner") ? colvarproxy::smp_mode_t::inner_loop : colvarproxy::smp_mode_t::none);
     else if (k == "replicas") { p->replica_id = (int) i_of(t[2]); p->n_replicas = (int) i_of(t[3]); p->comm_dir = t[4]; }   // m.opt replicas <id> <n> <dir>
     else if (k == "threads") p->n_threads = (int) i_of(t[2]);
+    else if (k == "realthreads") p->real_threads = i_of(t[2]) != 0;
     else if (k == "perm") { p->perm.clear(); for (size_t i = 2; i < t.size(); i++) p->perm.push_back((int) i_of(t[i])); }
     else if (k == "threadof") { p->thread_of.clear(); for (size_t i = 2; i < t.size(); i++) p->thread_of.push_back((int) i_of(t[i])); }
     else if (k == "rng") p->rng_state = std::strtoull(t[2].c_str(), nullptr, 10);
